@@ -775,9 +775,6 @@ func runV2Pset(t *Toks) string {
 		return fmt.Sprintf("ser=%s wf=%s parse=-", st, wf)
 	}
 	ser := v2unb64(b64)
-	if v2multiMap(p) {
-		ser = v2canonMaps(ser, len(p.Inputs))
-	}
 	q, st := v2parse64(b64)
 	if st == "ok" {
 		st = dumpPsetV2(q)
@@ -788,21 +785,22 @@ func runV2Pset(t *Toks) string {
 func runV2PsetRaw(t *Toks) string {
 	v2skipOracle(t)
 	p, st := v2parse(t.Hex())
+	if st == "err" {
+		return "parse=none"
+	}
 	if st != "ok" {
 		return fmt.Sprintf("parse=%s reser=- re=-", st)
 	}
-	d := dumpPsetV2(p)
+	dc := dumpPsetV2(p)
+	d := dc + " pwf=" + b2s(wfPsetV2(p))
 	b64, st := v2ser(p)
 	if st != "ok" {
 		return fmt.Sprintf("parse=%s reser=%s re=-", d, st)
 	}
 	bs2 := v2unb64(b64)
-	if v2multiMap(p) {
-		bs2 = v2canonMaps(bs2, len(p.Inputs))
-	}
 	q, re := v2parse64(b64)
 	if re == "ok" {
-		if re = "same"; dumpPsetV2(q) != d {
+		if re = "same"; dumpPsetV2(q) != dc {
 			re = "diff:" + dumpPsetV2(q)
 		}
 	}
@@ -1268,7 +1266,7 @@ func v2genDirect(r *Rng) *psetv2.Pset {
 	}
 	g := v2genGlobal(r, nin, nout)
 	fix := r.Chance(90) // keep the cross-field sanity rules satisfied
-	v2manyPreimages = r.Chance(25)
+	v2manyPreimages = r.Chance(50)
 	var ins, outs []*v2sec
 	for i := 0; i < nin; i++ {
 		ins = append(ins, v2genInput(r, fix))
@@ -1532,6 +1530,19 @@ func v2mutate(r *Rng, ser []byte) []byte {
 		which := byte(r.Pick(4, 5))
 		for _, c := range ps {
 			if c.sec == 0 && len(c.key) == 1 && c.key[0] == which && len(c.val) == 1 {
+				if r.Chance(40) { // a multi-byte compact size: canonical, non-canonical, or >= 2^63
+					v := r.Pick(0xfd, 0x100, int(c.val[0]), 0x10000)
+					enc := v2cs(uint64(v))
+					switch r.Intn(4) {
+					case 0:
+						enc = append([]byte{0xfd}, v2le(uint64(v&0xffff), 2)...) // non-canonical when v < 0xfd
+					case 1:
+						enc = append([]byte{0xff}, v2le(1<<63+uint64(r.Intn(3)), 8)...)
+					case 2:
+						enc = append([]byte{0xff}, v2le(^uint64(0), 8)...)
+					}
+					return splice(c.kend, c.end, v2vs(enc))
+				}
 				m[c.end-1] = byte(r.Pick(0, int(c.val[0])+1, int(c.val[0])+255, 0xfd))
 				break
 			}
@@ -1546,16 +1557,11 @@ func genV2PsetRawCases(r *Rng, n int, w *bufio.Writer) {
 		for try := 0; try < 4 && !wfPsetV2(p); try++ {
 			p = v2genPset(r)
 		}
-		// (the library serializes a map of two entries or more differently from call to call,
-		// beyond their order: such streams are made by the mutation adding a pre-image pair)
 		b64, st := v2ser(p)
-		if st != "ok" || v2multiMap(p) {
+		if st != "ok" {
 			continue
 		}
 		m := v2mutate(r, v2unb64(b64))
-		if !v2safeStream(m) || !v2mapsSorted(m) {
-			continue
-		}
 		o := v2orc{}
 		o.stream(m)
 		var b sb
